@@ -8,7 +8,7 @@ def jobs(tier):
 
 META = {
     "trusted_base": D.DFS_TRUSTED + ["drive occupancy (std::map lookups behind is_drive_connected) is a ghost array indexed by the unbounded drive number"],
-    "assumptions": [],
+    "assumptions": ["getopt_long hands over the options in command-line order (C library)"],
     "outside": ["select_drive / mount (std::map lookup), CachedDevice (vector of unique_ptr), --show-config text", "history clause for 511-slot MMB files (reachable-state invariant: protocol-level)"],
     "explanation": "opposite_surface is the involution pairing {4k,4k+2},{4k+1,4k+3}; next/prev/next-device arithmetic with overflow => exception; check_sequence_fits(i,n) <=> i, opposite(i), i+2k (k<n) all free and in range; StorageConfiguration::connect_drives (both policies): nothing occupied changes, exactly n new drives, failure => nothing connected; ViewFile::connect_drives: one drive configuration per view, in order",
 }
